@@ -131,7 +131,7 @@ structure FStream where
   init      : List InitTrack       -- p.init.Tracks
   leadingTrackID : Int
   procs : Option (List (Int × TrackInfo)) := none   -- p.trackProcessors (nil before the first segment)
-  deriving Repr
+  deriving Repr, DecidableEq
 
 /-- `fmp4PickLeadingTrack` -/
 def pickLeading (init : List InitTrack) : Except Err Int :=
